@@ -32,6 +32,7 @@ import (
 
 	gerrors "github.com/tochemey/goakt/v4/errors"
 	"github.com/tochemey/goakt/v4/internal/locker"
+	"github.com/tochemey/goakt/v4/internal/verifhook"
 )
 
 // CircuitBreaker is a thread-safe circuit breaker implementation.
@@ -178,6 +179,7 @@ func (b *CircuitBreaker) tryAcquire() (allowed, acquired bool) {
 			return false, false
 		}
 
+		verifhook.At("breaker.acquire.expired", b, 0, 0)
 		b.toHalfOpen()
 	}
 
